@@ -311,11 +311,12 @@ def oracle_state(c, ref, samples):
     ps, us, cond = ref["ps"], ref["us"], ref["cond"]
     jumps, kinks = ref_speeds(c, ref)
     near_jump = lambda xi: any(abs(xi - w) <= 1e-6 * max(abs(w), 1e-3 * sv) for w in jumps)
+    near_kink = lambda xi: any(abs(xi - w) <= 1e-6 * max(abs(w), 1e-3 * sv) for w in kinks)
     su = sv * (1 + 2 / (g - 1)) + abs(ul) + abs(ur)
     # star pressure / velocity as returned: taken from the samples in the star region
     if cond < 1e-3:
         for (xi, flag, r, u, p) in samples:
-            if ref_sample(c, ref, xi)[1] in ("Lstar", "Rstar") and not near_jump(xi):
+            if ref_sample(c, ref, xi)[1] in ("Lstar", "Rstar") and not near_jump(xi) and not near_kink(xi):
                 if abs(p - ps) > 0.05 * ps:
                     break          # not the star state at all: reported by the comparison with the exact solution below
                 if abs(p - ps) > (REL_P + 100 * cond) * ps:
